@@ -11,7 +11,7 @@ RULE = ("field: EVERY (13 USAGE spellings x unsigned/signed x (m,n) with 1<=m+n<
         "JSONSchemaMakerExtendedVocabulary and type(EBCDIC().nav(...).name(f).value()) on a record holding the mainframe encoding of a random value "
         "(the judge checks the picture text IS the printed picture and the bytes ARE the specification's encoding); text X(k)/A(k). "
         "Every copybook holds SEVERAL 01 records that declare the same data names (FLD, FILLER; N<id> in trees) with other pictures, usages and "
-        "structure, and some fields carry clauses that do not affect storage (BLANK WHEN ZERO, JUSTIFIED RIGHT, VALUE); data names of tree items are spelled in upper, mixed and lower case; the record of interest is not the first (streams field-other-record / field-filler / tree-first-record / tree-third-record look at "
+        "structure, a third of the items written without a USAGE clause stand in a record whose 01 entry carries a USAGE clause (the item's own clauses decide), and some fields carry clauses that do not affect storage (BLANK WHEN ZERO, JUSTIFIED RIGHT, VALUE); data names of tree items are spelled in upper, mixed and lower case; the record of interest is not the first (streams field-other-record / field-filler / tree-first-record / tree-third-record look at "
         "the other positions and at the FILLER item); the extended generator is ONE maker for all records as schema_iter has; ONE EBCDIC() serves "
         "every value read and size fallback of the run. Tree documents are compared with the lengths they STATE (minLength = maxLength). "
         "tree: random record descriptions of C01's generator (+ FILLER redefiners) -> emitted schema compared with the model's build, "
@@ -167,7 +167,13 @@ def field_copybook(c):
     filler_first = c.get("target", "FLD") == "FILLER"
     lines = []
     for i, (u, pic, fk, no_usage) in enumerate(recs):
-        lines.append(f"       01  R{i}.")
+        if no_usage and (c.get("seed", 0) + i) % 3 == 0:
+            # the record (a group) carries a USAGE clause of its own and the item has none: the item's own clauses decide
+            # (none = DISPLAY), here as everywhere in this library
+            gu = ["COMP-3", "BINARY", "COMP", "PACKED-DECIMAL", "COMPUTATIONAL-4"][(c.get("seed", 0) // 3 + i) % 5]
+            lines += [f"       01  R{i}", f"               USAGE {gu}."]
+        else:
+            lines.append(f"       01  R{i}.")
         fld = ["           05  FLD"]
         # clauses that do not affect storage, on some fields (chosen from the case's seed): they must change nothing
         extra = []
